@@ -13,12 +13,21 @@ Fixpoint reg_lookup (r : registry) (up : bool) (cid : N) : option (Z * kind) :=
   | ((u, c), v) :: r' => if Bool.eqb u up && (c =? cid) then Some v else reg_lookup r' up cid
   end.
 
-(* RegisterProprietaryMACCommand (after the fix: negative sizes are refused).
+(* delete(macPayloadRegistry[up], cid): every entry of the association list with that key goes *)
+Fixpoint reg_remove (r : registry) (up : bool) (cid : N) : registry :=
+  match r with
+  | [] => []
+  | ((u, c), v) :: r' =>
+    if Bool.eqb u up && (c =? cid) then reg_remove r' up cid else ((u, c), v) :: reg_remove r' up cid
+  end.
+
+(* RegisterProprietaryMACCommand (after the fixes: negative sizes are refused; size 0
+   removes an earlier registration of the CID instead of leaving its size in effect).
    A map assignment is a new first entry of the association list. *)
 Definition register (r : registry) (up : bool) (cid : N) (size : Z) : registry * bool :=
   if negb ((128 <=? cid) && (cid <=? 255)) then (r, false)
   else if (size <? 0)%Z then (r, false)
-  else if (size =? 0)%Z then (r, true)
+  else if (size =? 0)%Z then (reg_remove r up cid, true)
   else (((up, cid), (size, KProprietary)) :: r, true).
 
 Definition register_all (r : registry) (h : list (bool * N * Z)) : registry :=
